@@ -139,6 +139,9 @@ func propC15(j *Job) {
 		{"th400", 400, false, nil, false, false, 1},
 		{"pr-kill", 150, true, []killRule{{SID: 1, Msg: 1, Frag: -1, N: 1}}, true, false, 1},
 		{"pr-kill-last", 0, false, []killRule{{SID: 1, Msg: 3, Frag: 1, N: 1}}, true, false, 1},
+		// the abandoned message is the last thing written: nothing of the peer triggers its
+		// release, only the sender's own timer can
+		{"pr-kill-tail", 0, false, []killRule{{SID: 1, Msg: 2, Frag: -1, N: 1}}, true, false, 1},
 		{"block-deadline", 150, false, nil, false, true, 1},
 		{"block-deadline-unordered", 150, false, nil, false, true, 1},
 	}
@@ -148,6 +151,10 @@ func propC15(j *Job) {
 				continue
 			}
 			spec, states := c15Spec(mode, v.th, v.reenter, v.kills, v.pr, v.block)
+			if v.name == "pr-kill-tail" {
+				spec.Streams = spec.Streams[:1]
+				spec.Streams[0].Msgs = spec.Streams[0].Msgs[:3]
+			}
 			if v.name == "block-deadline-unordered" {
 				spec.Streams[0].Unordered = true
 			}
